@@ -119,6 +119,8 @@ pub struct World {
     pub fresh: BTreeMap<&'static str, BTreeSet<Vec<u8>>>,
     /// Published H points per (right bytes) that were already seen, with the model revision.
     pub published: BTreeMap<(Vec<u8>, Rev), Vec<u8>>,
+    /// ML-KEM encapsulation keys seen in public keys, by (right, revision).
+    pub published_ek: BTreeMap<(Vec<u8>, Rev), Vec<u8>>,
     pub failed: Vec<Obs>,
     pub stats: Stats,
     /// Abstract outcome per event (for twin runs, fingerprints and samples).
@@ -206,6 +208,7 @@ impl World {
             lost_windows: vec![],
             fresh: BTreeMap::new(),
             published: BTreeMap::new(),
+            published_ek: BTreeMap::new(),
             failed: vec![],
             stats: Stats::default(),
             outcomes: vec![],
@@ -472,6 +475,28 @@ impl World {
                     if let Some(c) = clash {
                         fails.push((Class::Fresh, format!("{op}/published-point-repeated"), c));
                     }
+                }
+            }
+        }
+        if self.wants(Class::Fresh) || self.wants(Class::Flavour) {
+            // ML-KEM material: every (right, revision) has its own key pair. The same
+            // encapsulation key under two rights, or under two revisions of a right, means the
+            // post-quantum half of one is opened by the holder of the other.
+            for (r, ek) in &w.eks {
+                let Some((rev, _)) = expected.get(r) else { continue };
+                let clash = self
+                    .published_ek
+                    .iter()
+                    .find(|((r2, rev2), ek2)| *ek2 == ek && !(r2 == r && rev2 == rev))
+                    .map(|((r2, rev2), _)| format!("ML-KEM key of right {:?} rev {} equals right {:?} rev {}", r, rev, r2, rev2));
+                if let Some(c) = clash {
+                    fails.push((Class::Fresh, format!("{op}/published-mlkem-key-repeated"), c.clone()));
+                    fails.push((Class::Flavour, format!("{op}/mlkem-key-shared-between-secrets"), c));
+                }
+            }
+            for (r, ek) in &w.eks {
+                if let Some((rev, _)) = expected.get(r) {
+                    self.published_ek.insert((r.clone(), *rev), ek.clone());
                 }
             }
         }
